@@ -17,6 +17,7 @@ import (
 //	mum=<mask>: adds the paths to the update mask in force at that point; nothing if there is none
 //	mw=<mask>: the masks of all mw options are united
 func resolve(op Op) Op {
+	op = unspell(op)
 	val := map[string]string{}
 	on := map[string]bool{}
 	var more []string
@@ -92,4 +93,86 @@ func unionLetters(a, b []string) string {
 		return "0"
 	}
 	return strings.Join(out, ",")
+}
+
+// unspell: the reference reading of the options that exist in two spellings. WithUpdatePaths(p...),
+// WithMoreUpdatePaths, WithResetPaths, WithMoreWritablePaths and WithReadPaths(m, p...) mean what
+// WithUpdateMask / ... mean for the mask that holds those paths; EmptyWriteOption / EmptyReadOption (nop)
+// mean nothing.
+func unspell(op Op) Op {
+	var spelled = map[string]string{"ump": "um", "mump": "mum", "rsp": "rs", "mwp": "mw", "rmp": "rm"}
+	out := op
+	out.Opts = nil
+	for _, t := range op.Opts {
+		if t == "nop" {
+			continue
+		}
+		if i := strings.IndexByte(t, '='); i >= 0 {
+			if k, ok := spelled[t[:i]]; ok {
+				t = k + t[i:]
+			}
+		}
+		out.Opts = append(out.Opts, t)
+	}
+	return out
+}
+
+// resolveRes: the reference reading of an ORDERED list of resource options (tokens k:v), as a plain
+// table, independently of the Lean model's fold:
+//
+//	W:<mask|nil>, Wp:<mask> (WithWritablePaths)  writable fields: the last one wins, nil = unrestricted
+//	icpt:<name|nil>                              id interceptor: the last one wins (a Value ignores it)
+//	init:<msg|nil>                               initial value: the last one wins (a Collection ignores it)
+//	rec:<id>~<msg>                               initial records accumulate; the same id twice panics, on
+//	                                             a Value too (the option itself panics)
+//	eqv:<name>                                   equivalence: the last one wins; no effect on Get/List/Set/Add/
+//	                                             Update/Delete
+//	nop clk rng                                  EmptyOption / where WithClock, WithRNG stand: no effect
+func resolveRes(c Cfg) Cfg {
+	out := c
+	out.W, out.Icpt, out.Init, out.Eqv, out.Panics = nil, "", nil, "", false
+	var initV string
+	seen := map[string]bool{}
+	for _, t := range c.Res {
+		k, v := t, ""
+		if i := strings.IndexByte(t, ':'); i >= 0 {
+			k, v = t[:i], t[i+1:]
+		}
+		switch k {
+		case "W", "Wp":
+			out.W = nil
+			if v != "nil" {
+				w := v
+				out.W = &w
+			}
+		case "icpt":
+			out.Icpt = ""
+			if v != "nil" {
+				out.Icpt = v
+			}
+		case "init":
+			initV = ""
+			if v != "nil" {
+				initV = v
+			}
+		case "rec":
+			id := strings.SplitN(v, "~", 2)[0]
+			if seen[id] {
+				out.Panics = true
+			}
+			seen[id] = true
+			if c.Kind != "val" {
+				out.Init = append(out.Init, v)
+			}
+		case "eqv":
+			out.Eqv = v
+		}
+	}
+	if c.Kind == "val" {
+		out.Icpt = ""
+		if initV != "" {
+			out.Init = []string{initV}
+		}
+	}
+	return out
 }
